@@ -37,7 +37,8 @@ pub const UNPARK_PRE: u32 = 22;
 /// A spin / yield site: `[site id]`.
 pub const SPIN: u32 = 23;
 /// An access to a plain atomic word is about to happen:
-/// `[addr, word id, access kind, ordering, operand a, operand b]`.
+/// `[addr, word id, access kind, ordering named by the hook, operand a, operand b, line of the hook]`
+/// (the ordering the access really uses is read from the source at that line by the checks).
 pub const WORD: u32 = 30;
 /// A site event (after the state change it reports): `[site id, a, b, c]`.
 pub const SITE: u32 = 40;
@@ -139,7 +140,7 @@ pub fn ptr_op<T>(kind: u32, addr: usize, ordering: usize, extra: &[usize]) {
 
 /// Announces an access to one of the plain atomic control words.
 #[inline]
-pub fn word_op<A>(w: &A, id: usize, acc: usize, o: Ordering, a: isize, b: isize) {
+pub fn word_op<A>(w: &A, id: usize, acc: usize, o: Ordering, a: isize, b: isize, line: u32) {
     at(
         WORD,
         &[
@@ -149,6 +150,7 @@ pub fn word_op<A>(w: &A, id: usize, acc: usize, o: Ordering, a: isize, b: isize)
             ord(o),
             a as usize,
             b as usize,
+            line as usize,
         ],
     );
 }
